@@ -230,6 +230,24 @@ def discharge(site, facts=None):
                                             or pd.k in ("ref", "deref")):
             pd = peel(pd.args[0] if pd.k == "call" else pd.a, through_try=False)
             n += 1
+        # dst[..n].copy_from_slice(&src[..n]) (or [a..b] on both sides): both slices have the length the same range gives
+        d0, s0 = peel(d, through_try=False), peel(src, through_try=False)
+
+        def rng(x):
+            n_ = 0
+            while x is not None and n_ < 4 and x.k in ("ref", "deref"):
+                x = peel(x.a, through_try=False)
+                n_ += 1
+            if x is not None and x.k == "call" and (x.q or "").split("::")[-1] in ("index", "index_mut") and len(x.args) == 2:
+                r = peel(x.args[1], through_try=False)
+                if r.k == "agg" and r.adt in ("std::ops::RangeTo", "std::ops::Range", "std::ops::RangeInclusive", "std::ops::RangeToInclusive"):
+                    return r
+            return None
+        rd, rs = rng(d0), rng(s0)
+        if rd is not None and rs is not None and rd.adt == rs.adt and len(rd.args) == len(rs.args) and \
+                all(same_expr(x, y) or (peel(x, through_try=False).k == "const" and peel(y, through_try=False).k == "const"
+                                         and peel(x, through_try=False).v == peel(y, through_try=False).v) for x, y in zip(rd.args, rs.args)):
+            return "both sides are sub-slices taken with the same range"
         if pd is not None and pd.k == "call" and (pd.q or "").endswith("from_elem") and len(pd.args) == 2:
             ln = peel(pd.args[1], through_try=False)
             if ln.k == "call" and (ln.q or "").split("::")[-1] == "len" and ln.args and \
@@ -334,8 +352,21 @@ def discharge(site, facts=None):
                             from ..common import _container_root
                             if _container_root(py.args[0]) is not None and _container_root(py.args[0]) == _container_root(ec):
                                 return "index < len() of this container"
-        # guard relating this index to this container's length
-        for f in facts_at(body, bb):
+        # guard relating this index to this container's length (for a method called on `self` by another method of the same
+        # type, the guard may sit in that caller: `self.buf` is the same container there)
+        fs = list(facts_at(body, bb))
+        if facts is not None and body.self_adt and body.kind != "closure":
+            sites = call_sites_of(facts, body)
+            if sites and len(sites) == 1:
+                cb, cbb, actual = sites[0]
+                a1 = peel(actual.get(1), through_try=False) if actual.get(1) is not None else None
+                n_ = 0
+                while a1 is not None and a1.k in ("ref", "deref") and n_ < 4:
+                    a1 = peel(a1.a, through_try=False)
+                    n_ += 1
+                if cb.self_adt == body.self_adt and a1 is not None and a1.k == "param" and a1.idx == 1:
+                    fs += facts_at_with_callers(facts, cb, cbb, 1)
+        for f in fs:
             if f[0] in ("Lt", "Le", "Gt", "Ge"):
                 for x, y in ((f[1], f[2]), (f[2], f[1])):
                     px = peel(x, through_try=False)
